@@ -1480,7 +1480,8 @@ Fixpoint read_loopI (fuel:nat) (c:rcfg) (m:nat) (s:rst) (lg:list nat)
   : bytes * option rerr * rst * list nat :=
   match rerror s with
   | Some e =>
-      ([], Some (if is_io_eof e && match cur s with Some _ => true | None => false end then unexpected_eof else e), s, lg)
+      ([], Some (if is_io_eof e && match cur s with Some _ => true | None => false end
+                    && ((0 <? rem s) || negb (rfin s)) then unexpected_eof else e), s, lg)
   | None =>
     match fuel with
     | O => ([], None, s <| outoffuel := true |>, lg)
